@@ -203,7 +203,11 @@ def run_scenario(sc, base, fast=True, mode='each', real_passes=None, on_test=Non
         left = {'k': sc['copy_fault']}
 
         def copyfile(src, dst, *a, **kw):
-            if os.path.abspath(str(dst)).startswith(tmpd + os.sep):
+            tm_ = getattr(o, 'tm', None)
+            cur_ = str(getattr(tm_, 'current_test_case', '')) if tm_ is not None else ''
+            is_cur = bool(cur_) and os.path.abspath(str(src)) == os.path.abspath(os.path.join(work, cur_))
+            # (the file being reduced is overwritten by the transformation anyway: the fault is scripted for the other test cases)
+            if os.path.abspath(str(dst)).startswith(tmpd + os.sep) and (not is_cur or len(names) == 1):
                 left['k'] -= 1
                 if left['k'] == 0:
                     with open(dst, 'wb'):
